@@ -71,6 +71,27 @@ CHECKS = {
              'co-executed. Regex classifiers are modelled by direct recognisers (small-scope exhaustive comparison).',
         technique='Rocq proof (induction over the line list, state invariant) + exhaustive small-scope co-execution against the Python code',
     ),
+    'C06': dict(
+        ref='5.6',
+        text='Theorems in coq/Properties/C06.v for every document of the grammar Spec/Grammar822.v (any number of paragraphs '
+             'and fields; names [A-Za-z][A-Za-z0-9-]*; any blanks/tabs after the colon; any trimmed first-line value without '
+             'LF/CR, possibly empty; indented non-blank continuation lines; k>=1 empty lines between paragraphs, any number '
+             'after the last): the line-tracking parser returns exactly the paragraphs in order, each with exactly its '
+             'fields in order, names lower-cased (licence->license), first-line values trimmed, continuation lines in order, '
+             'each line with its number in the document; names and values are independent of the separator lengths and of '
+             'the final line end. The header-style parser (splitter regex scanner + the modelled email fragment + merge loop) '
+             'cuts the document into exactly its paragraphs for any separator lengths and reads each paragraph (with or '
+             'without final LF) as exactly its fields in order, names lower-cased, value = first-line value and continuation '
+             'lines joined by LF and trimmed, provided the lower-cased names of a paragraph are pairwise different and none is '
+             'content-type (recorded finding F17). All by induction over lines/fields/paragraphs, no bound on sizes. NOT '
+             'modelled: reading from a file (open, UTF-8 decoding) - exercised by execution only. The model is co-executed '
+             'with deb822.py/debcon.py and email.message_from_string on generated grammar documents (random layouts), '
+             'header-ish texts, all strings of length <=7/8 over 6 characters through the splitter, and the executable '
+             'statement compares both parsers with the generating document on every case.',
+        note=TRUST + 'email.message_from_string is environment code: modelled (Model/Email.v), validated by co-execution, not '
+             'verified. File reading is not modelled.',
+        technique='Rocq proof (induction over the document grammar) over a Gallina model + differential co-execution against the Python code and the stdlib email parser',
+    ),
     'C07': dict(
         ref='5.7',
         text='Theorems in coq/Properties/C07.v for every text: the line-tracking parser returns (its exception branch is '
